@@ -53,15 +53,18 @@ Fixpoint tylist_eqb (a b : list ty) : bool :=
   | _, _ => false
   end.
 
-(* type_to_string as a normal form: every FnPtr prints as "fnptr" *)
+(* type_to_string as a normal form of the type (since f2ba330 a FnPtr prints its parameter and
+   result types, so the map is injective on the modelled types) *)
 Fixpoint key1 (t : ty) : ty :=
   match t with
   | TPtr x => TPtr (key1 x)
   | TSlice x => TSlice (key1 x)
   | TArr x n => TArr (key1 x) n
-  | TFn _ _ => TFn TNil (TPrim 0)
+  | TFn ps r => TFn (keys ps) (key1 r)
   | other => other
-  end.
+  end
+with keys (l : tys) : tys :=
+  match l with TNil => TNil | TCons t r => TCons (key1 t) (keys r) end.
 Definition key (l : list ty) : list ty := map key1 l.
 
 Fixpoint has_param (t : ty) : bool :=
